@@ -111,6 +111,12 @@ func VP_C15_History() {
 			x := vpSymBytes("probe", 0, L+1)
 			vpAssert(t.Has(x) == ref.has(x), "Has(x) iff x is empty or a prefix of a member")
 		}
+		// fe (optional): bit i set = ForEach is observed after step i; by
+		// default after every step. Skipping steps matters for an
+		// implementation that keeps anything from one ForEach to the next.
+		if fe := vpCaseOr("fe", -1); fe >= 0 && (fe>>step)&1 == 0 {
+			continue
+		}
 		var seen [][]byte
 		t.ForEach(func(b []byte) bool {
 			seen = append(seen, append([]byte(nil), b...))
